@@ -30,4 +30,16 @@ PROPS = {
         "quick_s": 40, "thorough_s": 900, "thorough_seeds": 4,
         "rule": "block-structured programs (seq/xor/and/or/loop/conditional-task/sub, swarm subset per run, <=12 tasks, depth<=3) x truth assignment x answer plan (hold-until-quiescent / pick order) x subscriber buffer 0..16 x tape-driven goroutine schedule; distinct = distinct hash of the (goroutine id, site) schedule sequence; non-trivial = at least one context switch and >= 2 task requests",
     },
+    "C03": {
+        "level": "exploration", "quick_s": 30, "thorough_s": 600, "thorough_seeds": 4,
+        "rule": "fork -> N tasks -> parallel gateway N x M -> M tasks -> join, N,M in 1..4, 1..3 activations through a loop; the answer plan holds requests until the engine is quiescent and then picks any pending one, so every finish order of the upstream tasks is reachable; tape-driven goroutine schedule; distinct = distinct schedule hash, non-trivial = N>1 or M>1 and at least one context switch",
+    },
+    "C04": {
+        "level": "exploration", "quick_s": 30, "thorough_s": 600, "thorough_seeds": 4,
+        "rule": "exclusive gateway with 1..4 conditional flows, default absent or at any list position, truth assignment drawn per condition, expr / XPath / data-object conditions, 1..3 tokens arriving concurrently through a parallel fork; distinct = schedule hash; non-trivial = at least one context switch",
+    },
+    "C05": {
+        "level": "exploration", "quick_s": 30, "thorough_s": 600, "thorough_seeds": 4,
+        "rule": "inclusive fork with 1..4 conditional branches + optional default, branches of one or two tasks, some ending in their own end event, joined by an inclusive join; truth assignments drawn; answer plan reaches all finish orders; distinct = schedule hash; non-trivial = >= 2 branch tasks requested and a context switch",
+    },
 }
